@@ -24,6 +24,13 @@ def _reg(prop):
     return run
 
 
+def _preawait(prop):
+    def run(tier):
+        from extract import check
+        return check.pre_await_check(prop)(tier)
+    return run
+
+
 def _lock(kinds, prop):
     def run(tier):
         from extract import check
@@ -32,10 +39,13 @@ def _lock(kinds, prop):
 
 
 PROPERTIES = {
-    'C16': dict(units=ENGINES, extra=[_lock(['cell'], 'C16')],
+    'C16': dict(units=ENGINES_SCORES, extra=[_lock(['cell'], 'C16')],
                 explanation='panic freedom of every extracted engine function (overflow, indexing, unwrap, callee preconditions such as rand_below(n > 0)) proved by Verus, '
                             'plus RefCell guard-liveness obligations on the original thread_local_cache.rs (no borrow_mut while a borrow of the same cell is live)',
                 assumptions=['limit >= 1 where the async engine requires it; counters unsaturated; totals fit usize', 'user closures / estimators / Debug impls do not panic']),
+    'C20': dict(units=['async_cache', 'wrappers_async'], extra=[_lock(['await'], 'C20'), _preawait('C20')],
+                explanation='on the real #[cache_async] expansions: no lock / DashMap guard is live at the .await (guard-liveness obligations), the only cache operation before the awaited body is the lookup, and the lookup never adds an entry and leaves the representation invariant intact (engine contract of get); after the await the store is the ordinary insert (last store wins, exact eviction); engine methods return owned values',
+                assumptions=['Rust async semantics: dropping a future runs only the destructors of live locals', 'schedules enter only through the invariant argument: every other operation meets its precondition (wf) while the call is suspended']),
     'C17': dict(units=[], extra=[_lock(['rank'], 'C17')],
                 explanation='lock-rank discipline: at every acquisition site (original source text of the engines, registries and of the real macro expansions) every lock already held has a strictly smaller rank and no lock is re-acquired; a sufficient condition for deadlock freedom for all schedules',
                 assumptions=['locks taken inside user closures / predicates / estimate_memory are not covered', 'parking_lot locks are fair enough not to starve (deadlock freedom only)'],
@@ -63,5 +73,5 @@ PROPERTIES = {
     'C13': dict(units=['registry', 'wrappers_global', 'wrappers_async'] + ENGINES, extra=[_reg('C13')],
                 explanation='conditional-invalidation callbacks as emitted by the real macros (one verified representative per emitted shape): exactly the stored keys satisfying the predicate leave store and queue, survivors untouched, queue order preserved, representation invariant re-established -- so that by the engine contracts later limits / evictions / totals are those of a cache in which the keys were never stored',
                 assumptions=['R8: the user predicate is a pure function of the key; the closure invalidate_all_with builds around it is abstracted to "the predicate specialised to that cache name"']),
-    'C15': dict(units=ENGINES, explanation='exactly one counter is bumped by exactly one per lookup'),
+    'C15': dict(units=ENGINES + ['interference'], extra=[_reg('C15')], explanation='exactly one counter is bumped by exactly one per lookup'),
 }
